@@ -116,9 +116,12 @@ class Ctx:
             self.analysed_fns.add(f if isinstance(f, str) else f.path)
 
     def floor(self, what, count, minimum):
+        """vacuity guard: fewer instances than confirmed by hand means the rule cannot see its constructs any
+        more; fail closed (a violation of the rule's shape assumptions), never a silent pass"""
         if count < minimum:
-            raise F.Broken(f"floor not met for {what}: {count} < {minimum} "
-                           f"(the rule would pass vacuously; anchors moved?)")
+            self.violation(f"{self.prop}.floor", f"{what.replace(' ', '-')}|floor-not-met",
+                           f"fail closed: only {count} instances of `{what}` found, at least {minimum} were confirmed by hand on the "
+                           f"reference tree; the rule would otherwise pass vacuously", construct="instance floor")
 
     # ---- finishing --------------------------------------------------------------------
     def finish(self):
